@@ -269,7 +269,7 @@ pub fn run(run: &mut Run) {
     ];
     if thorough {
         plans.push((HistCfg { seeds: vec!["basic"], alphabet: full.clone(), depth: 2 }, 2, 3, vec![core[0].clone(), core[22].clone()], "full"));
-        plans.push((HistCfg { seeds: vec!["basic"], alphabet: core.clone(), depth: 3 }, 3, 3, vec![core[0].clone()], "core"));
+        plans.push((HistCfg { seeds: vec!["basic"], alphabet: core.iter().step_by(2).cloned().collect(), depth: 3 }, 3, 3, vec![core[0].clone()], "core/2"));
     }
     let mut outcomes = std::collections::HashSet::new();
     let mut bounds = vec![];
